@@ -21,7 +21,7 @@ More == Loaded /\ l <= Len(H)
 
 \* the specification's configuration from the logged one (sets instead of lists; never gated)
 CfgOf(c) == [n |-> c.n, c |-> c.c, stopmode |-> c.stopmode, N |-> c.N, w |-> c.w, fb |-> c.fb, ctx0 |-> c.ctx0, cancel |-> TRUE,
-             outs |-> {"ok", "err"}, acts |-> {0, 1, 2}, preperr |-> TRUE, posterr |-> TRUE, gated |-> FALSE, strict |-> FALSE]
+             outs |-> {"ok", "err", "eres"}, acts |-> {0, 1, 2}, preperr |-> TRUE, posterr |-> TRUE, gated |-> FALSE, strict |-> FALSE]
 Empty == [n |-> 0, c |-> 0, stopmode |-> FALSE, N |-> 1, w |-> 0, fb |-> FALSE, ctx0 |-> FALSE, cancel |-> FALSE,
           outs |-> {}, acts |-> {}, preperr |-> FALSE, posterr |-> FALSE, gated |-> FALSE, strict |-> FALSE]
 
